@@ -2,7 +2,7 @@
 import itertools
 
 from . import env  # noqa: F401  (path set-up)
-from . import jv
+from . import eq, jv
 
 _uniq = itertools.count()
 
@@ -109,7 +109,7 @@ class Built(object):
         if k == "prim":
             v = jv.dec(j)
             if t["t"] == "ByteArray":
-                return [v]
+                return eq.chunks_of(v)
             return v
         if k == "enum":
             return getattr(self.enums[t["n"]], j)
